@@ -167,6 +167,17 @@ def filesystem_events(rng, q):
                     rec = rec << k          # (feature table kept: the resistance marker is read from it)
                 ext = exts[i % len(exts)] if i < len(exts) else rng.choice(exts)
                 stem = rng.choice(["%s_%d" % (key, i), "plasmid-%d" % i, "%s.v%d" % (key, i), "lab.%d.final" % i])
+                if rng.random() < 0.4:
+                    # a curated file: the resistance cassette carries a second label (gene name first, marker second, or the
+                    # other way round) - a feature may have any number of /label qualifiers
+                    import copy as _copy
+                    from moclo.registry._utils import _ANTIBIOTICS
+                    rec = _copy.deepcopy(rec)
+                    for ft in rec.features:
+                        labs = ft.qualifiers.get("label", [])
+                        if any(x in _ANTIBIOTICS for x in labs):
+                            ft.qualifiers["label"] = (["bla cassette"] + list(labs)) if rng.random() < 0.6 else (list(labs) + ["selection marker"])
+                            break
                 with open(os.path.join(d, "%s.%s" % (stem, ext)), "w") as f:
                     SeqIO.write(rec, f, "genbank")
                 all_written.append((stem, ext))
